@@ -123,6 +123,8 @@ def run(tier):
   rep.add_tlc('MC_Clear_quick(simulate, invariants and properties on every state / transition)', res, exhaustive=False)
   if res.violation:
     raise tlc.TLCError('design-level violation of %s:\n%s' % (res.violation, res.stdout[-3000:]))
+  cc.replay_scenarios(rep, 'GinCore_Scen_clear', max_files=300 if tier == 'quick' else 3000, nontrivial=_nontrivial,
+                      depth=5 if tier == 'quick' else 7, timeout=200 if tier == 'quick' else 1200, replay_fn=_replay)
   k = 250 if tier == 'quick' else 4000
   cc.replay_behaviours(rep, 'GinCore_Sim_clear', num=k, depth=16, nontrivial=_nontrivial, generate=k * 8, replay_fn=_replay, beh_keys=_beh_keys)
   rep.extra.update(STATS)
